@@ -18,6 +18,12 @@
      emplace / emplace_back (push_back(T&&), insert(pos, T&&)): a throw leaves every slot as before - the argument included,
      which the code before the give-back fix left moved-from ([C09_emplace_grow_without_give_back_refuted]) - and the temporary
      destroyed; on completion the new block holds prefix, new element, suffix and the old block nothing alive;
+   - [C09_throwing_moves_*] (ThrowMove.v): the same helpers for an element type whose move constructor / move assignment
+     throw (every catch block of shift_right, relocate_after_shift, emplace_n, insert_n is live): after a throw at ANY
+     move, copy or construction, never a lifetime error, nothing alive beyond size(), the temporary destroyed, every
+     element below size() alive - the basic guarantee in std::vector's sense; that no VISIBLE element is moved-from is
+     false ([..._moved_from_visible_refuted]: known finding F25), and without the catch block of shift_right an element
+     stayed alive beyond size() ([..._leak_before_fix_refuted]);
    - sets [C09_flatset_*]: FlatSet::operator=(const FlatSet&), insert(first, last) and restoreInvariants() are REGENERATED
      from flatset.hpp (Gen/HintGen.v: the try block becomes a match on [thr : option (list Z)], [Some l'] = "an operation
      of the vector threw and left the vector as l'", for ANY l' - the vector only promises the basic guarantee).  Whatever
@@ -29,7 +35,7 @@
    the element ledger, the allocator ledger, contents (strong operations: unchanged) and usability are checked. *)
 From Coq Require Import ZArith List Bool Sorted.
 From Amc Require Import Throw.
-From Amc Require EmplaceGrow.
+From Amc Require EmplaceGrow ThrowMove.
 From Amc Require Hint HintTV.
 From Amc.Gen Require HintGen SsetGen.
 From Amc Require SsetTV.
@@ -172,3 +178,45 @@ Proof. exact emplace_grow_nogb_refuted. Qed.
 Example C09_emplace_hypotheses_met :
   EmplaceNPre (init_lay 3 5 99) 3 5 1 6 7 99 /\ GrowPre (init_lay 3 3 99) 3 1 4 5 7 99.
 Proof. split; [exact emplace_n_pre_ex|exact grow_pre_ex]. Qed.
+
+(* ---- element types whose moves throw (known finding F25: what does hold, and what does not) ---- *)
+Theorem C09_throwing_moves_insert_basic :
+  forall m th size cap pos v, Inv m size cap -> size < cap -> pos <= size ->
+  match ThrowMove.insert_n true m th pos (size - pos) v with
+  | Threw m' => ThrowMove.Basic m' size cap /\ (forall j, j < pos -> m' j = m j) /\ (forall j, size <= j -> m' j = m j)
+  | Done m' _ => EmplaceGrow.insert_n m None pos (size - pos) v = Done m' None
+  | Err _ => False end.
+Proof. exact ThrowMove.insert_n_basic. Qed.
+
+Theorem C09_throwing_moves_emplace_basic :
+  forall m th size cap pos e a k va, EmplaceNPre m size cap pos e a va ->
+  match ThrowMove.emplace_n true m th pos (size - pos) e a k with
+  | Threw m' => ThrowMove.Basic (blockview m' 0 cap) size cap /\ (forall j, j < pos -> m' j = m j) /\ m' e = Raw /\
+                (m' a = Live va \/ (k = Rvalue /\ m' a = Moved)) /\ (forall j, size <= j -> j <> a -> m' j = m j)
+  | Done m' _ => EmplaceGrow.emplace_n m None pos (size - pos) e a k = Done m' None
+  | Err _ => False end.
+Proof. exact ThrowMove.emplace_n_basic. Qed.
+
+Theorem C09_throwing_moves_erase_basic :
+  forall m th size cap pos n, Inv m size cap -> 0 < n -> pos + n <= size ->
+  match ThrowMove.erase_n m th pos n (size - pos - n) with
+  | Threw m' => ThrowMove.Basic m' size cap /\ (forall j, j < pos -> m' j = m j) /\ (forall j, size <= j -> m' j = m j)
+  | Done m' _ => ThrowMove.erase_n_nx m pos n (size - pos - n) = inl m' /\ Inv m' (size - n) cap /\
+                 (forall j, j < pos -> m' j = m j) /\ (forall j, pos <= j < size - n -> m' j = m (j + n))
+  | Err _ => False end.
+Proof. exact ThrowMove.erase_n_basic. Qed.
+
+Theorem C09_throwing_moves_insert_moved_from_visible_refuted :
+  exists m', Inv (ThrowMove.init 3 5) 3 5 /\ ThrowMove.insert_n true (ThrowMove.init 3 5) (Some 1%nat) 0 (3 - 0) 99 = Threw m' /\
+  ThrowMove.Basic m' 3 5 /\ m' 2%nat = Moved /\ ~ Inv m' 3 5.
+Proof. exact ThrowMove.insert_n_strong_refuted. Qed.
+
+Theorem C09_throwing_moves_erase_moved_from_visible_refuted :
+  exists m', Inv (ThrowMove.init 4 4) 4 4 /\ ThrowMove.erase_n (ThrowMove.init 4 4) (Some 1%nat) 0 1 (4 - 0 - 1) = Threw m' /\
+  ThrowMove.Basic m' 4 4 /\ m' 1%nat = Moved /\ ~ Inv m' 4 4.
+Proof. exact ThrowMove.erase_n_strong_refuted. Qed.
+
+Theorem C09_throwing_moves_leak_before_fix_refuted :
+  exists m', Inv (ThrowMove.init 3 5) 3 5 /\ ThrowMove.shift_right1 false (ThrowMove.init 3 5) (Some 1%nat) 0 (3 - 0) = Threw m' /\
+  m' 3%nat = Live 12 /\ ~ ThrowMove.Basic m' 3 5.
+Proof. exact ThrowMove.shift_right1_nofix_refuted. Qed.
